@@ -70,4 +70,15 @@ def readString (ps : Nat) (pages : Oracle) (as addr : Nat) (allocOk : Nat → Bo
     Status × Option (List Byte) :=
   strLoop ps pages as allocOk fuel addr 0 []
 
+/-- `read_locked` as the API sees it, including the state "the page size is not known"
+(`get_page_size(ctx) == 0`, written `ps = 0`): a non-empty read then fails with
+`KDUMP_ERR_INVALID` *and resets the reported length to zero*; an empty read succeeds. -/
+def readApi (ps : Nat) (pages : Oracle) (as addr len : Nat) : Status × List Byte :=
+  if len ≠ 0 ∧ ps = 0 then (.invalid, []) else readLocked ps pages as addr len
+
+/-- `read_string_locked` as the API sees it: without a page size it fails before any page is fetched. -/
+def readStringApi (ps : Nat) (pages : Oracle) (as addr : Nat) (allocOk : Nat → Bool) (fuel : Nat) :
+    Status × Option (List Byte) :=
+  if ps = 0 then (.invalid, none) else readString ps pages as addr allocOk fuel
+
 end Kdf.Model.Read
